@@ -24,10 +24,13 @@ def sh(cmd, cwd=WT, timeout=3600):
 
 def main():
     props = sys.argv[1:]
-    if os.path.exists(WT):
-        sh("git -C /repo worktree remove --force %s" % WT, cwd="/")
-    rc, out = sh("git -C /repo worktree add -q --detach %s HEAD" % WT, cwd="/")
-    assert rc == 0, out
+    if os.environ.get("CONFIRM_REUSE") and os.path.isdir(WT):
+        pass  # an existing scratch worktree of /repo HEAD (warm target dir); reset per change below
+    else:
+        if os.path.exists(WT):
+            sh("git -C /repo worktree remove --force %s" % WT, cwd="/")
+        rc, out = sh("git -C /repo worktree add -q --detach %s HEAD" % WT, cwd="/")
+        assert rc == 0, out
     head = sh("git rev-parse --short HEAD")[1].strip()
     try:
         for P in props:
@@ -59,20 +62,17 @@ def main():
                 if rc != 0:
                     print(mid, "patch does not apply:", out[-300:])
                     continue
-                rc, out = sh("cargo test --offline -j 8 2>&1 | tail -40")
-                ok_suite = rc == 0 and "FAILED" not in out and "error" not in out.split("test result")[0][-2000:]
-                rc2, out2 = sh("cargo test --offline -j 8 > /tmp/confirm_suite.log 2>&1; echo rc=$?")
+                rc2, out2 = sh("cargo test --offline -j 4 > %s.suite.log 2>&1; echo rc=$?" % WT)
                 ok_suite = "rc=0" in out2
                 log["suite_passes_with_change"] = ok_suite
                 shutil.copy(demo, os.path.join(WT, "tests", "zz_seeded_demo.rs"))
-                rc, out = sh("cargo test --offline -j 8 --test zz_seeded_demo %s 2>&1 | tail -30" % fflag)
-                _, o = sh("cargo test --offline -j 8 --test zz_seeded_demo %s > /tmp/confirm_demo.log 2>&1; echo rc=$?" % fflag)
+                _, o = sh("cargo test --offline -j 4 --test zz_seeded_demo %s > %s.demo.log 2>&1; echo rc=$?" % (fflag, WT))
                 demo_fails = "rc=0" not in o
-                txt = open("/tmp/confirm_demo.log").read()
+                txt = open("%s.demo.log" % WT).read()
                 compiled = "error: could not compile" not in txt and "error[E" not in txt
                 log["demo_fails_with_change"] = demo_fails and compiled
                 sh("git apply -R %s" % diff)
-                _, o = sh("cargo test --offline -j 8 --test zz_seeded_demo %s > /tmp/confirm_demo2.log 2>&1; echo rc=$?" % fflag)
+                _, o = sh("cargo test --offline -j 4 --test zz_seeded_demo %s > %s.demo2.log 2>&1; echo rc=$?" % (fflag, WT))
                 log["demo_passes_without_change"] = "rc=0" in o
                 os.remove(os.path.join(WT, "tests", "zz_seeded_demo.rs"))
                 confirmed = all(log.values())
